@@ -131,7 +131,7 @@ class C05(Check):
         "peer": "stub responder model",
     }
     shrink_lists = ["callers", "callers.0.reqs", "callers.1.reqs", "callers.2.reqs", "callers.3.reqs"]
-    quick_runs = 12000
+    quick_runs = 30000
     thorough_runs = 1000000
     chunk = 200
 
